@@ -606,6 +606,9 @@ impl Module for M {
                     ctx.count("rrect:points:radii-confined");
                 }
                 let pts: Vec<Point> = rr.points().collect();
+                if pts.len() <= 400 {
+                    iter_protocol_check(ctx, "iterator-protocol:rounded-rectangle-points", rr.points(), 400);
+                }
                 let m = 3i32;
                 let (x0, y0) = (tl.x - m, tl.y - m);
                 let (x1, y1) = (tl.x + w as i32 + m, tl.y + h as i32 + m);
